@@ -242,5 +242,202 @@ theorem value_total {m : Method} {T N : ℕ} (sqrt : F → F) (hn : m.okNoAlias 
   refine Finset.sum_congr rfl fun f _ => ?_
   rw [total_eq_rhoAll (ty f) (fun i _ => okNoAlias_spec hn _) (c f) (s f) k, add_zero]
 
+/-! ### sum rule -/
+
+theorem sq_sum_split (K : ℕ) (x y : ℕ → F) :
+    (∑ a ∈ range K, x a) * (∑ a ∈ range K, x a) + (∑ a ∈ range K, y a) * (∑ a ∈ range K, y a)
+      = ∑ a ∈ range K, (x a * x a + y a * y a)
+        + 2 * ∑ a ∈ range K, ∑ b ∈ range K, if a < b then (x a * x b + y a * y b) else 0 := by
+  have h := pairLoop_double K (fun a b => x a * x b + y a * y b) (by intro i j; ring)
+  unfold pairLoop at h
+  simp only [sumRange_eq] at h
+  rw [h, Finset.sum_mul_sum, Finset.sum_mul_sum, ← Finset.sum_add_distrib, ← Finset.sum_add_distrib]
+  refine Finset.sum_congr rfl fun a ha => ?_
+  rw [← Finset.sum_add_distrib]
+  have e : ∀ b ∈ range K, x a * x b + y a * y b =
+      (if a = b then x a * x a + y a * y a else 0) + (if a ≠ b then x a * x b + y a * y b else 0) := by
+    intro b _; by_cases h : a = b
+    · subst h; simp
+    · simp [h]
+  rw [Finset.sum_congr rfl e, Finset.sum_add_distrib, Finset.sum_ite_eq, if_pos ha]
+
+/-- ρ = Σ_a ρ_a when every type id lies in 1..K -/
+theorem rhoAll_split {K N : ℕ} (ty : ℕ → ℕ) (hty : ∀ i < N, 1 ≤ ty i ∧ ty i ≤ K) (c s : ℕ → ℕ → F) (k : ℕ) :
+    (Spec.rhoAll N c s k).re = ∑ a ∈ range K, (Spec.rho N ty c s (a + 1) k).re ∧
+    (Spec.rhoAll N c s k).im = ∑ a ∈ range K, (Spec.rho N ty c s (a + 1) k).im := by
+  have one : ∀ i < N, ∀ v : F, ∑ a ∈ range K, (ind ty (a + 1) i : F) * v = v := by
+    intro i hi v
+    have h := hty i hi
+    rw [Finset.sum_eq_single (ty i - 1)]
+    · unfold ind; rw [if_pos (by omega)]; ring
+    · intro b _ hb; unfold ind; rw [if_neg (by omega)]; ring
+    · intro hn; exact absurd (Finset.mem_range.2 (by omega)) hn
+  unfold Spec.rhoAll Spec.rho
+  constructor
+  · simp only [mode_re]
+    rw [Finset.sum_comm]
+    refine Finset.sum_congr rfl fun i hi => ?_
+    rw [one i (Finset.mem_range.1 hi)]; ring
+  · simp only [mode_im]
+    rw [Finset.sum_comm]
+    refine Finset.sum_congr rfl fun i hi => ?_
+    rw [one i (Finset.mem_range.1 hi)]; ring
+
+/-- per frame: |ρ|² = Σ_a |ρ_a|² + 2 Σ_{a<b} Re(ρ_a conj ρ_b) -/
+theorem frame_sumrule {K N : ℕ} (ty : ℕ → ℕ) (hty : ∀ i < N, 1 ≤ ty i ∧ ty i ≤ K) (c s : ℕ → ℕ → F) (k : ℕ) :
+    reMulConj (Spec.rhoAll N c s k) (Spec.rhoAll N c s k) =
+      ∑ a ∈ range K, reMulConj (Spec.rho N ty c s (a + 1) k) (Spec.rho N ty c s (a + 1) k)
+      + 2 * ∑ a ∈ range K, ∑ b ∈ range K,
+          if a < b then reMulConj (Spec.rho N ty c s (a + 1) k) (Spec.rho N ty c s (b + 1) k) else 0 := by
+  obtain ⟨h1, h2⟩ := rhoAll_split ty hty c s k
+  simp only [reMulConj_eq]
+  rw [h1, h2]
+  exact sq_sum_split K _ _
+
+theorem SqrtOK.ne_zero {sqrt : F → F} (hs : SqrtOK sqrt) {n : ℕ} (hn : 0 < n) : sqrt ((n : ℕ) : F) ≠ 0 := by
+  intro h
+  have := (hs ((n : ℕ) : F) (Nat.cast_nonneg _)).2
+  rw [h, mul_zero] at this
+  have : (n : F) = 0 := this.symm
+  exact absurd (Nat.cast_eq_zero.1 this) (by omega)
+
+theorem countType_pos_N {N : ℕ} {ty : ℕ → ℕ} {a : ℕ} (h : 0 < countType N ty a) : 0 < N := by
+  rcases Nat.eq_zero_or_pos N with h0 | h0
+  · subst h0; simp [countType, sumRange] at h
+  · exact h0
+
+/-- **sum rule, per wave vector**:  N·S = Σ_a N_a S_aa + 2 Σ_{a<b} √(N_a N_b) S_ab  (species a+1, b+1 for a, b < K) -/
+theorem sumrule {sqrt : F → F} (hs : SqrtOK sqrt) {K T N : ℕ} (hK : 1 ≤ K) (ty : ℕ → ℕ → ℕ)
+    (hty : ∀ f < T, ∀ i < N, 1 ≤ ty f i ∧ ty f i ≤ K)
+    (hpos : ∀ a, 1 ≤ a ∧ a ≤ K → 0 < countType N (ty 0) a) (c s : ℕ → ℕ → ℕ → F) (k : ℕ) :
+    (N : F) * Spec.Stot T N c s k =
+      ∑ a ∈ range K, (countType N (ty 0) (a + 1) : F) * Spec.S sqrt T N ty c s (a + 1) (a + 1) k
+      + 2 * ∑ a ∈ range K, ∑ b ∈ range K,
+          if a < b then sqrt ((countType N (ty 0) (a + 1) * countType N (ty 0) (b + 1) : ℕ) : F)
+                          * Spec.S sqrt T N ty c s (a + 1) (b + 1) k else 0 := by
+  have hN : (N : F) ≠ 0 := by
+    have := countType_pos_N (hpos 1 ⟨le_refl _, hK⟩)
+    exact Nat.cast_ne_zero.2 (by omega)
+  have scale : ∀ (w : F) (g : ℕ → F), w ≠ 0 → w * ((∑ f ∈ range T, g f / w) / (T : F)) = (∑ f ∈ range T, g f) / (T : F) := by
+    intro w g hw
+    rw [← Finset.sum_div]; field_simp
+  have e0 : (N : F) * Spec.Stot T N c s k =
+      (∑ f ∈ range T, reMulConj (Spec.rhoAll N (c f) (s f) k) (Spec.rhoAll N (c f) (s f) k)) / (T : F) := by
+    unfold Spec.Stot; rw [sumRange_eq]; exact scale _ _ hN
+  have e1 : ∀ a ∈ range K, (countType N (ty 0) (a + 1) : F) * Spec.S sqrt T N ty c s (a + 1) (a + 1) k =
+      (∑ f ∈ range T, reMulConj (Spec.rho N (ty f) (c f) (s f) (a + 1) k) (Spec.rho N (ty f) (c f) (s f) (a + 1) k)) / (T : F) := by
+    intro a ha
+    have hp := hpos (a + 1) ⟨by omega, by have := Finset.mem_range.1 ha; omega⟩
+    unfold Spec.S; rw [sumRange_eq, hs.sq_nat]
+    exact scale _ _ (Nat.cast_ne_zero.2 (by omega))
+  have e2 : ∀ a ∈ range K, ∀ b ∈ range K,
+      (if a < b then sqrt ((countType N (ty 0) (a + 1) * countType N (ty 0) (b + 1) : ℕ) : F)
+                          * Spec.S sqrt T N ty c s (a + 1) (b + 1) k else 0) =
+      (∑ f ∈ range T, if a < b then reMulConj (Spec.rho N (ty f) (c f) (s f) (a + 1) k) (Spec.rho N (ty f) (c f) (s f) (b + 1) k) else 0) / (T : F) := by
+    intro a ha b hb
+    split
+    · have hpa := hpos (a + 1) ⟨by omega, by have := Finset.mem_range.1 ha; omega⟩
+      have hpb := hpos (b + 1) ⟨by omega, by have := Finset.mem_range.1 hb; omega⟩
+      unfold Spec.S; rw [sumRange_eq]
+      exact scale _ _ (hs.ne_zero (Nat.mul_pos hpa hpb))
+    · simp
+  rw [e0, Finset.sum_congr rfl e1, Finset.sum_congr rfl (fun a ha => Finset.sum_congr rfl (e2 a ha))]
+  simp only [← Finset.sum_div]
+  rw [← mul_div_assoc, ← add_div]
+  congr 1
+  rw [Finset.sum_congr rfl (fun f hf => frame_sumrule (ty f) (hty f (Finset.mem_range.1 hf)) (c f) (s f) k),
+      Finset.sum_add_distrib, ← Finset.mul_sum]
+  congr 1
+  · exact Finset.sum_comm
+  · congr 1
+    rw [Finset.sum_comm]
+    refine Finset.sum_congr rfl fun a _ => Finset.sum_comm
+
+/-! ### non-negativity -/
+
+theorem reMulConj_self_nonneg (a : Cx F) : 0 ≤ reMulConj a a := by
+  rw [reMulConj_eq]; exact add_nonneg (mul_self_nonneg _) (mul_self_nonneg _)
+
+theorem S_diag_nonneg {sqrt : F → F} (hs : SqrtOK sqrt) (T N : ℕ) (ty : ℕ → ℕ → ℕ) (c s : ℕ → ℕ → ℕ → F) (a k : ℕ) :
+    0 ≤ Spec.S sqrt T N ty c s a a k := by
+  unfold Spec.S; rw [sumRange_eq]
+  refine div_nonneg (Finset.sum_nonneg fun f _ => div_nonneg (reMulConj_self_nonneg _) ?_) (Nat.cast_nonneg _)
+  exact (hs _ (Nat.cast_nonneg _)).1
+
+theorem Stot_nonneg (T N : ℕ) (c s : ℕ → ℕ → ℕ → F) (k : ℕ) : 0 ≤ Spec.Stot T N c s k := by
+  unfold Spec.Stot; rw [sumRange_eq]
+  exact div_nonneg (Finset.sum_nonneg fun f _ => div_nonneg (reMulConj_self_nonneg _) (Nat.cast_nonneg _)) (Nat.cast_nonneg _)
+
+/-! ### group-by -/
+section group
+variable {κ : Type} [LinearOrder κ]
+
+theorem mem_insertKey (x y : κ) (l : List κ) : y ∈ insertKey x l ↔ y = x ∨ y ∈ l := by
+  induction l with
+  | nil => simp [insertKey]
+  | cons z zs ih =>
+    unfold insertKey
+    split
+    · simp
+    · split
+      · rename_i h1 h2; subst h2; simp
+      · simp [ih]; tauto
+
+theorem sorted_insertKey (x : κ) (l : List κ) (h : l.Pairwise (· < ·)) : (insertKey x l).Pairwise (· < ·) := by
+  induction l with
+  | nil => simp [insertKey]
+  | cons z zs ih =>
+    rw [List.pairwise_cons] at h
+    unfold insertKey
+    split
+    · rename_i hxz
+      rw [List.pairwise_cons]
+      refine ⟨?_, List.pairwise_cons.2 h⟩
+      intro w hw
+      rcases List.mem_cons.1 hw with rfl | hw
+      · exact hxz
+      · exact lt_trans hxz (h.1 w hw)
+    · split
+      · exact List.pairwise_cons.2 h
+      · rename_i h1 h2
+        rw [List.pairwise_cons]
+        refine ⟨?_, ih h.2⟩
+        intro w hw
+        rcases (mem_insertKey x w zs).1 hw with rfl | hw
+        · exact lt_of_le_of_ne (not_lt.1 h1) (Ne.symm h2)
+        · exact h.1 w hw
+
+theorem mem_distinctKeys (n : ℕ) (key : ℕ → κ) (x : κ) : x ∈ distinctKeys n key ↔ ∃ k < n, key k = x := by
+  unfold distinctKeys
+  induction n with
+  | zero => simp [foldRange]
+  | succ n ih =>
+    rw [foldRange_succ, mem_insertKey, ih]
+    constructor
+    · rintro (rfl | ⟨k, hk, rfl⟩)
+      · exact ⟨n, by omega, rfl⟩
+      · exact ⟨k, by omega, rfl⟩
+    · rintro ⟨k, hk, rfl⟩
+      by_cases h : k = n
+      · left; rw [h]
+      · right; exact ⟨k, by omega, rfl⟩
+
+theorem sorted_distinctKeys (n : ℕ) (key : ℕ → κ) : (distinctKeys n key).Pairwise (· < ·) := by
+  unfold distinctKeys
+  induction n with
+  | zero => simp [foldRange]
+  | succ n ih => rw [foldRange_succ]; exact sorted_insertKey _ _ ih
+
+/-- `groupMean` = for each distinct key (ascending) the arithmetic mean over exactly the rows with that key -/
+theorem groupMean_eq (n : ℕ) (key : ℕ → κ) (v : ℕ → F) :
+    groupMean n key v = (distinctKeys n key).map fun x =>
+      (x, (∑ k ∈ (range n).filter (fun k => key k = x), v k) / (((range n).filter (fun k => key k = x)).card : F)) := by
+  unfold groupMean groupSize
+  simp only [sumRange_eq]
+  refine List.map_congr_left fun x _ => ?_
+  rw [Finset.sum_filter, Finset.card_filter]
+
+end group
+
 end field
 end Pms.Sq
